@@ -633,7 +633,7 @@ layout BestChecksums
   field "Checksums-Sha256" hashes sha256
   field "Checksums-Sha512" hashes sha512
 
-property C07: lemma idx_least, lemma idx_is, lemma idx_none, lemma idxOf_prefix, (*ParagraphReader).Next, (*ParagraphReader).All
+property C07: NewParagraphReader, lemma idx_least, lemma idx_is, lemma idx_none, lemma idxOf_prefix, (*ParagraphReader).Next, (*ParagraphReader).All
 property C09: lemma idxOf_prefix, lemma idxOf_found, (*Paragraph).Set, (*Paragraph).Update
 
 property C10: (*DSC).HasArchAll, (*DSC).Maintainers, (*SourceParagraph).Maintainers, (*DSC).AbsFiles, (*Changes).AbsFiles, (*DSC).DebianSource, (*BinaryIndex).SourcePackage, (*BestChecksums).Checksums, (*FileHash).unmarshalControl, (*MD5FileHash).UnmarshalControl, (*SHA1FileHash).UnmarshalControl, (*SHA256FileHash).UnmarshalControl, (*SHA512FileHash).UnmarshalControl, (*FileListChangesFileHash).UnmarshalControl, layout DSC, layout Changes, layout SourceParagraph, layout BinaryParagraph, layout BinaryIndex, layout SourceIndex, layout BestChecksums
